@@ -1019,3 +1019,10 @@ pub fn put_any_entity_event<E: 'static>(cache: &mut ReactCache, a: ReactorHandle
     v.push(a);
     put2(&mut cache.any_entity_event_reactors, Some((TypeId::of::<E>(), v)), None);
 }
+pub fn put_component_one_each<C: 'static>(cache: &mut ReactCache, ins: ReactorHandle, mutn: ReactorHandle)
+{
+    let mut vi: Vec<ReactorHandle> = Vec::with_capacity(2); vi.push(ins);
+    let mut vm: Vec<ReactorHandle> = Vec::with_capacity(2); vm.push(mutn);
+    let cr = ComponentReactors{ insertion_callbacks: vi, mutation_callbacks: vm, removal_callbacks: Vec::new() };
+    put2(&mut cache.component_reactors, Some((TypeId::of::<C>(), cr)), None);
+}
